@@ -31,6 +31,7 @@ ASPECTS: dict[str, tuple[str, set[str] | None, Callable[[list[str]], bool] | Non
     "C16": ("sequences with pointers", {"values", "raise", "sizes"}, lambda seq: any("p32" in n for n in seq)),
     "C04": ("positions and consumed size", {"fetch", "end", "sizes"}, None),
     "C07": ("sequences with arrays", {"values", "context", "sizes", "fetch", "raise"}, lambda seq: any("[" in n or n.startswith(("dyn", "c5", "w3", "c200")) for n in seq)),
+    "C12": ("sequences with enums and flags", {"values", "raise", "sizes", "fetch"}, lambda seq: any(n.startswith(("e16", "e24", "fl8")) for n in seq)),
     "C09": ("streams that do not start at 0", {"values", "fetch", "end"}, None),
 }
 
